@@ -155,8 +155,15 @@ class Free:
         if k == "pushlit":
             return "PUSH_LITERAL" + self.sp() + "(" + self.sp() + self.string(e[1]) + self.sp() + ")"
         if k == "slice":
-            a = "" if e[1] is None else str(e[1])
-            b = "" if e[2] is None else str(e[2])
+            def num(v):
+                if v is None:
+                    return ""
+                if v == 0:
+                    return r.choice(["0", "0", "00"])
+                z = r.choice(["", "", "0", "00"])
+                return ("-" + z + str(-v)) if v < 0 else (z + str(v))
+
+            a, b = num(e[1]), num(e[2])
             return "PEEK" + self.sp() + "[" + self.sp() + a + self.sp() + ".." + self.sp() + b + self.sp() + "]"
         raise ValueError(k)
 
